@@ -98,13 +98,19 @@ class TrioRunner(BaseRunner):
             return
         # Trio only allows us an *synchronously blocking* call it from other threads.
         # Use an executor thread to make that *asynchronously* blocking for asyncio.
+        closing = self.asyncio_loop.run_in_executor(
+            None,
+            partial(
+                trio.from_thread.run, self._aclose_trio, trio_token=self._trio_token
+            ),
+        )
+        # the outcome is only of interest if we are still around to look at it
+        closing.add_done_callback(lambda fut: fut.cancelled() or fut.exception())
         try:
-            await self.asyncio_loop.run_in_executor(
-                None,
-                partial(
-                    trio.from_thread.run, self._aclose_trio, trio_token=self._trio_token
-                ),
-            )
+            # Closing must go ahead even if we are cancelled while waiting for it,
+            # e.g. by a second interrupt: cancelling the executor job before it has
+            # started would leave the trio loop running, and nothing stops it later.
+            await asyncio.shield(closing)
         except (trio.RunFinishedError, trio.Cancelled):
             # trio already finished in its own thread
             return
